@@ -204,6 +204,7 @@ func runC07(c *Ctx, tier string) {
 	runSortFieldPairing(c, "C07-D9", "C07-N2")
 	runSortKeyOverlap(c, "C07-K2")
 	runMergeOrderNeedsSortedParents(c, "C07-M1")
+	runCutOrderFromCopies(c, "C07-K3")
 	c.Rule("C07-F1", "a predicate pushed into a scan becomes a prefilter that over-approximates it (= C04-F1): the and/or composition of CompileBufferFilter keeps a one-sided sub-filter only under `and`")
 	c.borrow(func(t *Ctx) { runC04F1(t) }, map[string]string{"C04-F1": "C07-F1"})
 	// D2
@@ -459,7 +460,7 @@ func runC08(c *Ctx, tier string) {
 	}
 	runLegsGetCopies(c, "C08-D2")
 	runPartialsPairing(c, "C08-D3")
-	c.borrow(func(t *Ctx) { runC07(t, "quick") }, map[string]string{"C07-D5": "C08-D5", "C07-N2": "C08-N2", "C07-D9": "C08-D9", "C07-K2": "C08-K2"})
+	c.borrow(func(t *Ctx) { runC07(t, "quick") }, map[string]string{"C07-D5": "C08-D5", "C07-N2": "C08-N2", "C07-D9": "C08-D9", "C07-K2": "C08-K2", "C07-K3": "C08-K3"})
 	runSplitSummarizeTailKeys(c, "C08-D4")
 	runPartialOutputForm(c, "C08-P4")
 	runLiftedSortSingleKey(c, "C08-M2")
@@ -468,6 +469,7 @@ func runC08(c *Ctx, tier string) {
 	c.Rule("C08-N2", "a sort is split into per-leg sorts and a merge only after its null placement was consulted (= C07-N2)")
 	c.Rule("C08-D9", "the merge that replaces a lifted sort runs in the sort's effective direction (= C07-D9)")
 	c.Rule("C08-K2", "drop/put/rename keep the scan order only if the rewritten field does not overlap the sort key (= C07-K2)")
+	c.Rule("C08-K3", "after a cut only a copy of the sort key is ordered (= C07-K3)")
 	// M1
 	fn := p.Func("(*compiler/optimizer.Optimizer).parallelizeSeqScan")
 	if fn == nil {
